@@ -90,7 +90,7 @@ PROPS["C06"] = dict(
     ],
     trace="Trace_C02",
     drive=dict(quick=dict(n=6000, size=4), thorough=dict(n=100000, size=8)),
-    nontrivial=lambda e: len(e["args"]["doc"]["mappings"][0]) >= 2,
+    nontrivial=lambda e: (len(e["args"]["doc"]["mappings"][0]) >= 2 if e["args"]["doc"]["mappings"] else bool(e["args"]["doc"].get("sections"))),
     corrupt=_corrupt_decode,
     rule="cases: every text of MC_Mappings (base texts and every single fault at every position, 3 array sizes incl. empty arrays) and seeded random well-formed texts damaged by 1-2 faults (9 fault operators); distinct = distinct (text, sizes); non-trivial = text of >= 2 symbols",
     assumptions=COMMON_ASSUMPTIONS,
@@ -422,7 +422,7 @@ PROPS["C10"] = dict(
         dict(module="MC_Adjust", cfg="MC_Adjust_dups_thorough.cfg", tiers=("thorough",), workers=14, timeout=3400, heap="24g"),
     ],
     trace="Trace_C10",
-    drive=dict(quick=dict(n=1500, size=3), thorough=dict(n=30000, size=7)),
+    drive=dict(quick=dict(n=1500, size=3), thorough=dict(n=20000, size=5)),
     nontrivial=lambda e: len(e["args"]["orig"]) >= 1 and len(e["args"]["adj"]) >= 1,
     corrupt=_corrupt_c10,
     rule="cases: every (orig, adj) of MC_Adjust: <= MaxO original and <= MaxA adjustment tokens over Lines x Cols, adjustment displacements {(0,0),(0,2),(1,0),(1,1)}, without and with duplicated positions; seeded random pairs on grids up to 50x50 with up to ~56 tokens a side, a third of them with duplicated positions, tokens handed to the crate in shuffled order; distinct = distinct (orig, adj); non-trivial = both maps non-empty",
@@ -570,7 +570,7 @@ PROPS["C17"] = dict(
         dict(module="MC_NameResolve", cfg="MC_NameResolve_thorough.cfg", tiers=("thorough",), workers=14, timeout=3400, heap="24g"),
     ],
     trace="Trace_C17",
-    drive=dict(quick=dict(n=120, size=3), thorough=dict(n=4000, size=6)),
+    drive=dict(quick=dict(n=400, size=3), thorough=dict(n=4000, size=6)),
     nontrivial=lambda e: len(e["args"]["toks"]) >= 2,
     corrupt=_corrupt_c17,
     corruptible=lambda e: True,
